@@ -26,6 +26,8 @@ M = [
     ('C12', 'Salted,SHA1,AES256', 'pgpy.packet.fields', "_h.update(b'\\x00' * i)", "_h.update(b'\\x00' * (i + 1))"),
     ('C12', 'Simple,SHA1,CAST5', 'pgpy.packet.fields', '(count // len(hsalt + hpass)) if count else 0', '(count // len(hsalt + hpass))'),
     ('C12', 'Iterated,SHA1,CAST5', 'pgpy.packet.fields', 'self.count > len(hsalt + hpass)', 'self.count < len(hsalt + hpass)'),
+    # the same computation written with divmod (engine builtin added in round 7): wrong window for the count, as in seeded change C03-13
+    ('C12', 'Iterated,SHA1,CAST5', 'pgpy.packet.fields', "        if self.specifier == String2KeyType.Iterated and self.count > len(hsalt + hpass):\n            count = self.count\n\n        hcount = (count // len(hsalt + hpass)) if count else 0\n        hleft = count - (hcount * len(hsalt + hpass))\n", "        if self.specifier == String2KeyType.Iterated and self.count > len(hpass):\n            count = self.count\n\n        hcount, hleft = divmod(count, len(hsalt + hpass)) if count else (0, 0)\n"),
     ('C12', 'Salted,MD5,AES256', 'pgpy.packet.fields', "return b''.join(hc.digest() for hc in h)[:(keylen // 8)]", "return b''.join(hc.digest() for hc in h)[:(keylen // 8) - 1]"),
     ('C12', 'Salted,SHA256,CAST5', 'pgpy.packet.fields', 'if self.specifier >= String2KeyType.Salted:\n            hsalt = bytes(self.salt)', 'if self.specifier > String2KeyType.Salted:\n            hsalt = bytes(self.salt)'),
     ('C17', 'causes_signature', 'pgpy.constants', '            | SecurityIssues.Expired\n', ''),
